@@ -512,6 +512,16 @@ def get_item(I, obj, idx):
         if r is not None and I.is_interp_func(r[0]):
             return I.call_function(r[0], [obj, idx], {}, defcls=r[1])
         I.raise_py(TypeError, f"'{obj.cls.__name__}' object is not subscriptable")
+    if isinstance(obj, type) and issubclass(obj, enum.Enum) and isinstance(idx, SStr) and idx.tag == "enum_name":
+        # Cls[<name of a symbolic member, lower/upper-cased>]
+        se, tr = idx.parts
+        names = [m.name for m in se.members]
+        wanted = [n.upper() if tr == "upper" else n.lower() if tr == "lower" else n for n in names]
+        if se.cls is obj and all(w in obj.__members__ and obj.__members__[w] is m for w, m in zip(wanted, se.members)):
+            return se
+        if all(w not in obj.__members__ for w in wanted):
+            I.raise_py(KeyError, "enum name")
+        raise Unsupported("Enum[...] with a name that maps some members and not others")
     if isinstance(obj, type) and issubclass(obj, enum.Enum) and isinstance(idx, (SStr, SVal)):
         raise Unsupported("Enum[...] with symbolic name")
     if isinstance(obj, Opaque):
